@@ -431,3 +431,66 @@ func H16b_BigEntry() {
 	vrt.Assert("skip ok", p.Unmarshal(data, &less) == nil)
 	vrt.Assert("JSON fields skipped exactly", vrt.And(less.A == in.A, less.B == in.B))
 }
+
+// numberLiterals: json.Number texts at the edges of what float64 and int64
+// can hold (valid JSON number literals; the codec must carry the text as is).
+var numberLiterals = []string{"0", "-0", "1", "-1.5", "1e309", "-1e400", "2E+1000", "1e-400", "123456789012345678901234567890",
+	"9223372036854775808", "-9223372036854775809", "18446744073709551616", "0.1000000000000000055511151231257827", "1E2", "4.9e-324"}
+
+// H16n_NumberLiterals: json.Number values with extreme literals round-trip
+// as text, at top level, nested and as a struct field, and the descriptor
+// walk hands the text to the outputter unchanged (a number, not a string).
+func H16n_NumberLiterals() {
+	vrt.MapOrder(false)
+	p := newPlencJSON()
+	lit := json.Number(numberLiterals[vrt.Choice("lit", len(numberLiterals))])
+	key := vrt.String("k", 1)
+	var data []byte
+	var err error
+	var exp []ev
+	var r recOut
+	switch vrt.Choice("position", 3) {
+	case 0:
+		a := []any{lit, []any{lit}}
+		data, err = p.Marshal(nil, &a)
+		vrt.Assert("marshal ok", err == nil)
+		var out []any
+		vrt.Assert("unmarshal ok", p.Unmarshal(data, &out) == nil)
+		vrt.Assert("round trip", eqArr(a, out))
+		c, cerr := p.CodecForType(reflect.TypeOf(a))
+		vrt.Assert("codec ok", cerr == nil)
+		d := c.Descriptor()
+		vrt.Assert("descriptor walk ok", d.Read(&r, data) == nil)
+		evAny(&exp, a)
+	case 1:
+		m := map[string]any{key: lit}
+		data, err = p.Marshal(nil, m)
+		vrt.Assert("marshal ok", err == nil)
+		var out map[string]any
+		vrt.Assert("unmarshal ok", p.Unmarshal(data, &out) == nil)
+		vrt.Assert("round trip", eqObj(m, out))
+		c, cerr := p.CodecForType(reflect.TypeOf(m))
+		vrt.Assert("codec ok", cerr == nil)
+		d := c.Descriptor()
+		vrt.Assert("descriptor walk ok", d.Read(&r, data) == nil)
+		evAny(&exp, m)
+	default:
+		in := TJSON{A: 1, M: map[string]any{key: []any{lit}}, L: []any{lit}, B: 2}
+		data, err = p.Marshal(nil, &in)
+		vrt.Assert("marshal ok", err == nil)
+		var out TJSON
+		vrt.Assert("unmarshal ok", p.Unmarshal(data, &out) == nil)
+		vrt.Assert("round trip", vrt.And(eqObj(in.M, out.M), eqArr(in.L, out.L)))
+		c, cerr := p.CodecForType(reflect.TypeOf(in))
+		vrt.Assert("codec ok", cerr == nil)
+		d := c.Descriptor()
+		vrt.Assert("descriptor walk ok", d.Read(&r, data) == nil)
+		exp = []ev{{K: evStartObj}, {K: evName, S: "A"}, {K: evInt, U: 1}, {K: evName, S: "M"}}
+		evAny(&exp, in.M)
+		exp = append(exp, ev{K: evName, S: "L"})
+		evAny(&exp, in.L)
+		exp = append(exp, ev{K: evName, S: "B"}, ev{K: evInt, U: 2}, ev{K: evEndObj})
+	}
+	vrt.Assert("events well nested (would render as valid JSON)", r.wellNested())
+	vrt.Assert("rendered content == value (numbers as raw number text)", eqEvents(exp, r.evs))
+}
